@@ -827,6 +827,9 @@ class Net:
         self.s = sched
         self.listeners: Dict[Any, 'VSocket'] = {}
         self.connections: List['VSocket'] = []
+        # 'crlf': every chunk that is sent arrives in pieces - a read never crosses the boundary between a CR and the LF that follows it,
+        # nor the end of a sent chunk (TCP may segment a stream anywhere; this is the segmentation that matters for CR LF framing)
+        self.fragment: Optional[str] = None
 
 
 class timeout(OSError):  # noqa: N801
@@ -846,6 +849,7 @@ class VSocket:
         self.listening = False
         self.backlog: collections.deque = collections.deque()
         self.rx = bytearray()
+        self.cuts: collections.deque = collections.deque()      # lengths of the pieces in which rx will be delivered (fragment mode)
         self.peer: Optional['VSocket'] = None
         self.closed = False
         self.wr_closed = False
@@ -929,6 +933,14 @@ class VSocket:
                 self.sent_after_peer_close += len(data)
             else:
                 p.rx.extend(data)
+                if self.s.net.fragment == 'crlf':
+                    start = 0
+                    for i in range(len(data) - 1):
+                        if data[i:i + 2] == b'\r\n':
+                            p.cuts.append(i + 1 - start)
+                            start = i + 1
+                    if len(data) > start:
+                        p.cuts.append(len(data) - start)
         self.s.op(self.lbl + '.send', _true, self._chk(act), False)
 
     def send(self, data):
@@ -942,8 +954,14 @@ class VSocket:
         def act():
             if self.peer is None:
                 raise OSError(107, 'Transport endpoint is not connected')
-            out = bytes(self.rx[:n])
-            del self.rx[:n]
+            m = n
+            if self.cuts:
+                m = min(n, self.cuts[0])
+                self.cuts[0] -= m
+                if self.cuts[0] == 0:
+                    self.cuts.popleft()
+            out = bytes(self.rx[:m])
+            del self.rx[:m]
             self.rx_total += len(out)
             return out
         if self.tmo is None:
